@@ -2,6 +2,7 @@ package main
 
 import (
 	"fmt"
+	"math"
 	"time"
 
 	"github.com/0xrawsec/sod"
@@ -153,13 +154,13 @@ func (r *Runner) args(op *Op) {
 	// a search value that carries BOTH an error and result entries (an unknown logical operator or a failed expectation on
 	// a search that had matched, a valid search refined / widened with something that cannot be evaluated): Delete and
 	// One refuse it - nothing is deleted
-	all := func() *sod.Search { return r.db.Search(r.proto(), "K", ">=", int64(-1<<62)) }
+	all := func() *sod.Search { return r.db.Search(r.proto(), "K", ">=", int64(math.MinInt64)) }
 	for _, mk := range []struct {
 		tag string
 		f   func() *sod.Search
 	}{
-		{"xor", func() *sod.Search { return all().Operation("xor", "K", ">=", int64(-1<<62)) }},
-		{"nand", func() *sod.Search { return all().Operation("", "K", ">=", int64(-1<<62)) }},
+		{"xor", func() *sod.Search { return all().Operation("xor", "K", ">=", int64(math.MinInt64)) }},
+		{"nand", func() *sod.Search { return all().Operation("", "K", ">=", int64(math.MinInt64)) }},
 		{"expects", func() *sod.Search { return all().Expects(1 << 20) }},
 		{"expectszn", func() *sod.Search { return all().ExpectsZeroOrN(1 << 20) }},
 		{"and-bad", func() *sod.Search { return all().And("Nope", "=", 1) }},
@@ -175,7 +176,7 @@ func (r *Runner) args(op *Op) {
 				}
 			}()
 			s := mk.f()
-			if before == 0 {
+			if before == 0 || all().Len() == 0 {
 				return // nothing matched: no entries to carry
 			}
 			if s.Err() == nil {
